@@ -154,7 +154,33 @@ def run(ck):
             ck.note_distinct(tag + json.dumps([p["nacc"], p["variadic"], p["capture"]]))
         if len(ck.samples) < 2 and p["tail"] and p["capture"] and p["depth"] == 1000:
             ck.add_sample({"src": p["src"], "depth": p["depth"], "max_fi": o["max_fi"], "entries": fstat["entries"] if fstat else 0})
-    ck.extra.update({"deep_tail_ok": tail_ok, "deep_nontail_ok": nontail_ok, "depths": depths, "model_depth_programs": len(progs)})
+    # ---- a tail-call loop started from the deepest frames: frame re-use needs no frame, so it must work wherever the call that
+    # entered the function worked (frame arithmetic: main is frame 1, g at nesting level k runs in frame k+1, the call of loop from
+    # level D needs frame D+2 <= MaxFrames).  1 operand-stack slot per level, so the operand stack (2048) is not what runs out.
+    edge = []
+    for D in (1000, 1018, 1019, 1020, 1021, 1022, 1023, 1024, 1030):
+        for iters in (0, 1, 50):
+            src = ("d := 0\nloop := func(n, acc) { if n == 0 { return acc }; return loop(n - 1, acc + 1) }\n"
+                   "g := func() { d += 1; if d >= %d { return loop(%d, 0) }; return g() + 0 }\nr := g()\n" % (D, iters))
+            edge.append({"id": len(edge) + 1, "src": src, "inputs": [], "mods": [], "D": D, "iters": iters, "timeout_ms": 20000})
+    eres = semlib.real_outcomes(ck, edge, nproc=6)
+    for c in edge:
+        o = eres[c["id"]]
+        ck.evaluations += 1
+        want_ok = c["D"] + 2 <= MAXFRAMES
+        rep = {"program": {"src": c["src"], "D": c["D"], "iters": c["iters"]}, "real": o}
+        if want_ok:
+            r = dict((n, semcmp.canon(x)) for n, x in o.get("g", [])).get("r") if o.get("k") == "ok" else None
+            if r != ("int", c["iters"]):
+                ck.violation("tail-loop-in-last-frames:%d" % (MAXFRAMES - c["D"] - 2), "a self tail-call loop of %d iterations entered from nesting level %d (frame %d of %d) must return %d, got %s %s" % (
+                    c["iters"], c["D"], c["D"] + 2, MAXFRAMES, c["iters"], o.get("k"), str(o.get("msg") or r)[:200]), rep)
+                continue
+        elif not (o.get("k") == "runtime_error" and o.get("kind") == "stack_overflow"):
+            ck.violation("frame-limit-not-enforced", "nesting level %d needs frame %d > %d: expected the stack-overflow error, got %s" % (
+                c["D"], c["D"] + 2, MAXFRAMES, str(o)[:200]), rep)
+            continue
+        ck.traces += 1
+    ck.extra.update({"deep_tail_ok": tail_ok, "deep_nontail_ok": nontail_ok, "depths": depths, "model_depth_programs": len(progs), "last_frame_cases": len(edge)})
     ck.rule = ("14 forms of code after the self call x 0-2 accumulators x variadic x capturing closures; depths 0..12 against TengoSem, "
                "deep depths against the closed form of the equivalent loop with a frame probe")
     ck.assumptions = ["the closed forms used at deep depths are validated against TengoSem at the model depths in the same run"]
